@@ -72,9 +72,14 @@ _iov("C05", "Every slice handed out points into live memory",
       "Woodpile.Props.C05.no_overlap",
       "Woodpile.Props.C05.released_only_when_unreachable"],
      ["Woodpile.Props.C05"], ["C05"], ["A", "S", "T", "L", "R"],
-     "Kernel-checked ownership invariant on the structural model (every exposed owned slice is guarded by an anchor holding its chunk; "
-     "derived liveness); correspondence of slice placement and live-chunk set with the real allocator through hook H1; containment oracle.",
-     " PARTIAL BY NATURE: memory safety of the compiled unsafe code is sampled (registry + debug poisoning), not proved.")
+     "Kernel-checked invariants of the structural multi-object model over ALL histories of the iovec op vocabulary (World.step, cross-checked "
+     "against the driver at compile time): (G) every owned slice is guarded by an anchor at or after the one that counts it, (A) detached slices "
+     "carry their chunk's anchor, (C) caches hold their chunk, (B) one cache per chunk, every slice of every object below the bump pointer and inside "
+     "the chunk's allocation-time capacity, fresh allocations above everything readable (no_overlap); exposed_live / released_only_when_unreachable. "
+     "Correspondence of slice placement and live-chunk set with the real allocator through hook H1; containment oracle incl. scripted "
+     "anchored-slice ownership scenarios.",
+     " PARTIAL BY NATURE: memory safety of the compiled unsafe code is sampled (registry + debug poisoning), not proved. The anchored codec "
+     "input is modelled as the composite push(slice); push_anchor(anchor); the raw unsafe components() route is the caller's obligation.")
 _iov("C10", "Arena memory is reclaimed: no leak after drop, bounded footprint in streaming",
      ["Woodpile.Props.C10.live_iff_held",
       "Woodpile.Props.C10.drop_all_releases",
@@ -85,9 +90,13 @@ _iov("C10", "Arena memory is reclaimed: no leak after drop, bounded footprint in
       "Woodpile.Props.C10.streaming_footprint",
       "Woodpile.Props.C10.streaming_footprint_prod"],
      ["Woodpile.Props.C10"], ["C10"], ["L"],
-     "Kernel-checked: dropping every object leaves no holder (derived liveness); correspondence of the live-chunk set after every operation; "
-     "leak oracle on the process-wide counters at the end of every history.",
-     " PARTIAL BY NATURE: leaks below the model (Arc/Box internals) are only visible to the counters.")
+     "Kernel-checked: dropping every object leaves no holder (derived liveness); anchors are released from the front as soon as their slices are "
+     "consumed; streaming footprint: for one iovec fed by push_copy/register_patch/backfill (<= P bytes per push, one pending placeholder, <= B bytes "
+     "behind it) and drained after every call, the live chunks are covered by at most 2B/m0+2 chunks of capacity <= S (production: 33 x 1 MiB for the "
+     "HCOBS encoder; findHintSize_le for the extracted tuning constants). Correspondence of the live-chunk set after every operation; leak oracle on "
+     "the process-wide counters at the end of every history.",
+     " PARTIAL BY NATURE: leaks below the model (Arc/Box internals) are only visible to the counters. The footprint constant is not tight "
+     "(every chunk is charged the minimum capacity); foreign AnchoredSlices / borrowed pushes are excluded from the streaming pattern.")
 _iov("C20", "A cloned or taken OwningIovec is an independent snapshot",
      ["Woodpile.Props.C20.clone_copies",
       "Woodpile.Props.C20.take_moves_all",
@@ -98,5 +107,10 @@ _iov("C20", "A cloned or taken OwningIovec is an independent snapshot",
       "Woodpile.Props.C20.clone_independent_nonfill",
       "Woodpile.Props.C20.clone_independent_backfill_partial"],
      ["Woodpile.Props.C20"], ["C20"], ["A", "R"],
-     "Kernel-checked frame theorems on the multi-object world model; correspondence over histories with clone/take and interleaved suffixes on both sides; "
-     "per-object shadow oracle checked on every object after every operation.")
+     "Kernel-checked on the multi-object world model: clone_copies, take_moves_all (+ tokens still backfill the taken value), frame_struct / "
+     "frame_valid for every op, frame_heap (every heap write lands above every existing slice of its chunk, or in a pending range of the backfilled "
+     "iovec), clone_independent for every op except backfill at full strength. Correspondence over histories with clone/take and interleaved suffixes "
+     "on both sides; per-object shadow oracle checked on every object after every operation.",
+     " PARTIAL: clone_independent for backfill is proved GIVEN pending_private (no other object's slice covers a pending placeholder range); "
+     "that invariant (for histories cloning only iovecs with no pending placeholder) is stated, not proved - covered on the real code by the "
+     "per-object shadow oracle only.")
